@@ -129,6 +129,11 @@ def run_ps(W, cfg):
             W.ob(f'zero outside the mask [{r},{c}]', opd[r, c], 0)
     W.ob('mean square over the mask = rms^2', W.sum(opd[r, c] * opd[r, c] for r, c in sup), rms * rms * len(sup))
     W.ob_true('the global random generator is not used', len(W.rng_events()) == n_ev0)
+    # a deterministic function of its arguments and seed: asked again (same process, same mask shape) it gives the same surface
+    again = lt.power_spectrum(mask, 1.0, rms, 4.0, 3, seed=seed)
+    W.ob('same arguments and seed, second call', again, opd)
+    third = lt.power_spectrum(mask.copy(), 1.0, rms, 4.0, 3, seed=seed)
+    W.ob('same arguments and seed, third call', third, opd)
 
 
 def cfg_cosmic(tier, seed):
